@@ -3,6 +3,7 @@ import Chain33Model.Proofs.C25Basic
 import Chain33Model.Proofs.C25Fresh
 import Chain33Model.Proofs.C25Lift
 import Chain33Model.Proofs.C25Tx
+import Chain33Model.Proofs.C25Ext
 /-!
 C25 — Best chain converges to the heaviest branch for any delivery order.  Property theorems.
 
@@ -218,3 +219,145 @@ example :
   refine ⟨⟨rfl, by unfold UniqIds; decide, by decide, by decide⟩, by decide, by decide, by decide⟩
 
 end C25
+
+/-! ## Moving finaliser, orphan-pool limits and expiry (extension layer `Model/C25Ext.lean`)
+
+`runX (initX M F m r g lim ttl) es` runs the events `es` — deliveries, clock ticks, finaliser
+requests (`snowmanAcceptBlock`), restarts — on a node with `maxOrphanBlocks = lim` and
+`orphanExpirationTime = ttl` seconds; `M` is the representation of the orphan metadata table
+(hash map in the driver, function in the witnesses; the theorems hold for every lawful one). -/
+namespace C25X
+open C25
+
+/-- **order_independent with a moving finaliser and the real orphan pool.**  Events in any order:
+deliveries (`delivered es`) over a tree `T` (each block at least once, duplicates allowed), finaliser requests for
+arbitrary `(height, hash)` pairs (the node itself only honours blocks on its best chain, strictly
+upwards, and resets downwards on a deep fork), clock ticks.  Hypotheses that bound the run:
+* `|T| ≤ maxOrphanBlocks` — the pool can hold every block of the tree that may have to wait;
+* the ticks add up to at most `orphanExpirationTime` — no waiting orphan expires;
+* no restart (a restart forgets side branches and the pool);
+* every finalised height requested, and the initial one, is `≤ Fmax`.
+If the heaviest block `w` is unique and `Fmax + margin ≤ w.height`, the run never panics, the best
+chain is the branch of `w`, and the persisted chain equals that of a fresh node fed only that
+branch in order. -/
+theorem order_independent_events {M : Type} [OMap M] [LawfulOMap M] {g : Block} {T : List Block}
+    (ht : Tree g T) (F Fmax m : Nat) (r : Bool) (lim ttl : Nat) (es : List Event)
+    (hnr : ∀ e ∈ es, e ≠ Event.restart)
+    (hds : ∀ b ∈ delivered es, b ∈ T) (hall : ∀ b ∈ T, b ∈ delivered es)
+    (hlim : T.length ≤ lim) (htime : elapsed es ≤ ttl)
+    (hF : F ≤ Fmax) (hfin : ∀ h id, Event.finalize h id ∈ es → h ≤ Fmax)
+    (w : Block) (hw : w ∈ g :: T)
+    (hmax : ∀ b ∈ g :: T, b ≠ w → TD (g :: T) b < TD (g :: T) w) (hel : Fmax + m ≤ w.height) :
+    let path := chainTo (g :: T) w.height w
+    let sref := deliverAll (init F m r g) path.reverse.tail
+    ∃ x, runX (initX M F m r g lim ttl) es = some x ∧
+      x.base.best = path ∧ sref.best = path ∧ x.base.h2h = sref.h2h ∧ x.base.last = sref.last ∧
+      x.base.txIdx = sref.txIdx ∧
+      (∀ y ∈ path, x.base.stored y.id = sref.stored y.id ∧ x.base.tds y.id = sref.tds y.id) ∧
+      x.base.orphans = [] := by
+  intro path sref
+  -- the initial state satisfies the invariant for the bound Fmax
+  have h0 : RunX g T Fmax [] (initX M F m r g lim ttl) := by
+    have h := initX_runX (M := M) ht F m r lim ttl
+    refine ⟨⟨?_, h.run.orph, h.run.got, h.run.only⟩, h.on, h.xinv⟩
+    have hb := h.run.base
+    exact ⟨hb.inv, hb.gIn, hb.idxSub, hb.orphSub, hb.tdEq,
+      fun h0 => hb.tipMax (by omega),
+      fun w' hw' hmax' hel' => hb.win w' hw' hmax' (by omega),
+      Nat.le_trans hb.finLe hF, hb.txv⟩
+  obtain ⟨x, hrun, hr, hm⟩ := runX_run ht es [] _ h0 hlim hnr
+    (fun b hb => hds b (mem_delivered.mpr hb)) hfin (by simpa [initX] using htime)
+  have hmarg : x.base.margin = m := by rw [hm]; rfl
+  have hall' : ∀ b ∈ T, b ∈ [] ++ delivered es := fun b hb => by simpa using hall b hb
+  exact ⟨x, hrun, converged ht hr.run hall' hw hmax (by rw [hmarg]; exact hel) F m r⟩
+
+/-! ### the bounds are needed: refuting witnesses (orphan metadata as a function, `decide`) -/
+
+abbrev FM := Map (Nat × Nat)
+
+/-- `order_independent_events` without the pool bound `|T| ≤ maxOrphanBlocks`. -/
+def NoPoolBound : Prop :=
+  ∀ (g : Block) (T : List Block) (m lim ttl : Nat) (es : List Event) (w : Block), Tree g T →
+    (∀ e ∈ es, e ≠ Event.restart) → (∀ b ∈ delivered es, b ∈ T) → (∀ b ∈ T, b ∈ delivered es) →
+    elapsed es ≤ ttl → w ∈ g :: T → (∀ b ∈ g :: T, b ≠ w → TD (g :: T) b < TD (g :: T) w) → m ≤ w.height →
+    ∃ x, runX (initX FM 0 m true g lim ttl) es = some x ∧ x.base.best = chainTo (g :: T) w.height w
+
+def wg : Block := ⟨0, 0, 0, 5, []⟩
+def wT : List Block := [⟨1, 0, 1, 1, []⟩, ⟨2, 1, 2, 1, []⟩, ⟨3, 2, 3, 1, []⟩, ⟨4, 3, 4, 1, []⟩]
+
+/-- a chain of four blocks delivered children first into a pool of two: block 4 is evicted when
+block 2 arrives, the chain stops at height 3 although every block was delivered. -/
+theorem noPoolBound_false : ¬ NoPoolBound := by
+  intro h
+  have := h wg wT 1 2 600
+    [.deliver ⟨4, 3, 4, 1, []⟩, .deliver ⟨3, 2, 3, 1, []⟩, .deliver ⟨2, 1, 2, 1, []⟩, .deliver ⟨1, 0, 1, 1, []⟩]
+    ⟨4, 3, 4, 1, []⟩ ⟨rfl, by unfold UniqIds; decide, by decide, by decide⟩
+    (by decide) (by decide) (by decide) (by decide) (by decide) (by decide) (by decide)
+  revert this
+  decide
+
+/-- `order_independent_events` without the bound on elapsed time. -/
+def NoTimeBound : Prop :=
+  ∀ (g : Block) (T : List Block) (m lim ttl : Nat) (es : List Event) (w : Block), Tree g T →
+    (∀ e ∈ es, e ≠ Event.restart) → (∀ b ∈ delivered es, b ∈ T) → (∀ b ∈ T, b ∈ delivered es) →
+    T.length ≤ lim → w ∈ g :: T → (∀ b ∈ g :: T, b ≠ w → TD (g :: T) b < TD (g :: T) w) → m ≤ w.height →
+    ∃ x, runX (initX FM 0 m true g lim ttl) es = some x ∧ x.base.best = chainTo (g :: T) w.height w
+
+/-- block 4 waits in the pool for 601 s; the next `AddOrphanBlock` (block 3) drops it. -/
+theorem noTimeBound_false : ¬ NoTimeBound := by
+  intro h
+  have := h wg wT 1 10240 600
+    [.deliver ⟨4, 3, 4, 1, []⟩, .tick 601, .deliver ⟨3, 2, 3, 1, []⟩, .deliver ⟨2, 1, 2, 1, []⟩, .deliver ⟨1, 0, 1, 1, []⟩]
+    ⟨4, 3, 4, 1, []⟩ ⟨rfl, by unfold UniqIds; decide, by decide, by decide⟩
+    (by decide) (by decide) (by decide) (by decide) (by decide) (by decide) (by decide)
+  revert this
+  decide
+
+/-- the finaliser only ever finalises a block of the current best chain at least `margin` below
+the tip (checked along the run). -/
+def respects {M : Type} [OMap M] : XState M → List Event → Bool
+  | _, [] => true
+  | x, e :: es =>
+    (match e with
+     | .finalize h id =>
+       (match x.base.best with
+        | tip :: _ => contains x.base.best ⟨id, 0, h, 0, []⟩ && decide (h + x.base.margin ≤ tip.height)
+        | [] => false)
+     | _ => true) &&
+    (match stepX x e with
+     | some x' => respects x' es
+     | none => true)
+
+/-- the variant that measures the margin against the finalised height the node ENDS with, for a
+finaliser that respects the rule: false, because a heavier block can be shelved while the
+finalised height is high and the height is lowered again by a later deep reorganisation. -/
+def FinalFinSuffices : Prop :=
+  ∀ (g : Block) (T : List Block) (m : Nat) (es : List Event) (w : Block), Tree g T →
+    (∀ e ∈ es, e ≠ Event.restart) → (∀ b ∈ delivered es, b ∈ T) → (∀ b ∈ T, b ∈ delivered es) →
+    respects (initX FM 0 m true g 10240 600) es = true → elapsed es ≤ 600 → T.length ≤ 10240 →
+    w ∈ g :: T → (∀ b ∈ g :: T, b ≠ w → TD (g :: T) b < TD (g :: T) w) →
+    ∃ x, runX (initX FM 0 m true g 10240 600) es = some x ∧
+      (x.base.fin + m ≤ w.height → x.base.best = chainTo (g :: T) w.height w)
+
+def fT : List Block :=
+  [⟨1, 0, 1, 1, []⟩, ⟨2, 1, 2, 1, []⟩, ⟨3, 2, 3, 1, []⟩, ⟨4, 3, 4, 1, []⟩, ⟨5, 4, 5, 1, []⟩, ⟨6, 5, 6, 1, []⟩,
+   ⟨12, 1, 2, 1, []⟩, ⟨13, 12, 3, 1, []⟩, ⟨14, 13, 4, 100, []⟩,
+   ⟨23, 2, 3, 2, []⟩, ⟨24, 23, 4, 2, []⟩, ⟨25, 24, 5, 2, []⟩, ⟨26, 25, 6, 2, []⟩, ⟨27, 26, 7, 2, []⟩]
+
+/-- margin 2.  Branch 1–6 is best, block 3 (height 3 ≤ 6 − 2) is finalised; the heaviest block 14
+(height 4 < 3 + 2) is shelved; branch 23–27 forks below the finalised block, wins at block 25 and
+resets the finalised height to 2.  At the end `fin + margin = 4 ≤ height 14`, but the tip is 27. -/
+theorem finalFinSuffices_false : ¬ FinalFinSuffices := by
+  intro h
+  have := h wg fT 2
+    [.deliver ⟨1, 0, 1, 1, []⟩, .deliver ⟨2, 1, 2, 1, []⟩, .deliver ⟨3, 2, 3, 1, []⟩, .deliver ⟨4, 3, 4, 1, []⟩,
+     .deliver ⟨5, 4, 5, 1, []⟩, .deliver ⟨6, 5, 6, 1, []⟩, .finalize 3 3,
+     .deliver ⟨12, 1, 2, 1, []⟩, .deliver ⟨13, 12, 3, 1, []⟩, .deliver ⟨14, 13, 4, 100, []⟩,
+     .deliver ⟨23, 2, 3, 2, []⟩, .deliver ⟨24, 23, 4, 2, []⟩, .deliver ⟨25, 24, 5, 2, []⟩,
+     .deliver ⟨26, 25, 6, 2, []⟩, .deliver ⟨27, 26, 7, 2, []⟩]
+    ⟨14, 13, 4, 100, []⟩ ⟨rfl, by unfold UniqIds; decide, by decide, by decide⟩
+    (by decide) (by decide) (by decide) (by decide) (by decide) (by decide) (by decide) (by decide)
+  revert this
+  decide
+
+end C25X
